@@ -84,6 +84,7 @@ Law(k) ==
          /\ aw % 8 = 0 /\ ah % 4 = 0 /\ aw - w \in 0..7 /\ ah - h \in 0..3
          /\ { CI8Index(w, x, y) : x \in 0..(aw - 1), y \in 0..(ah - 1) } = 0..(aw * ah - 1)
          /\ CI8PayloadSize(w, h) = aw * ah
+         /\ \A x \in 0..(aw - 1), y \in 0..(ah - 1) : CI8InCrop(w, h, CI8Index(w, x, y)) <=> (x < w /\ y < h)
          \* blocks row-major, rows inside a block contiguous
          /\ \A x \in 0..(aw - 2), y \in 0..(ah - 1) :
               CI8Index(w, x + 1, y) - CI8Index(w, x, y) = (IF x % 8 = 7 THEN 25 ELSE 1)
@@ -114,7 +115,12 @@ GenPalSizes == { <<1, 1>>, <<3, 5>>, <<8, 4>>, <<9, 4>>, <<8, 5>>, <<17, 9>>, <<
                \cup (IF Tier = "quick" THEN {} ELSE { <<16, 16>>, <<33, 3>>, <<2, 33>> })
 NPal(w, h) == 1 + ((w * 5 + h * 3) % 40)
 PalBytes(n, s) == [k \in 1..(2 * n) |-> PatByte(s, k + 500)]
-CI8Pat(w, h, n) == [k \in 1..CI8PayloadSize(w, h) |-> PatByte(w + h, k) % n]
+\* texels outside the crop are "don't care": 0xFF / the first value that is no palette index / any byte
+CI8Pad(w, h, n, k) == CASE (w + h) % 3 = 0 -> 255
+                        [] (w + h) % 3 = 1 -> IF n < 256 THEN n ELSE 255
+                        [] (w + h) % 3 = 2 -> PatByte(w * h, k + 77)
+CI8Pat(w, h, n) == [k \in 1..CI8PayloadSize(w, h) |->
+                      IF CI8InCrop(w, h, k - 1) THEN PatByte(w + h, k) % n ELSE CI8Pad(w, h, n, k)]
 TplTex(w, h, payload, pal) == [name |-> <<>>, w |-> w, h |-> h, fmt |-> CI8, payload |-> payload, pal |-> pal]
 
 \* palette sizes at the ends of the 8-bit index range, and payloads that use both ends of it
@@ -122,7 +128,8 @@ EdgePals == {1, 2, 255, 256}
 EdgeIdx(n, j) == CASE j = 0 -> 0 [] j = 1 -> 1 % n [] j = 2 -> (2 * n - 2) % n [] j = 3 -> n - 1
 \* the four left-most texels of every block row carry 0, 1, n-2, n-1, rotated per row
 CI8Edge(w, h, n) == [k \in 1..CI8PayloadSize(w, h) |->
-                       IF (k - 1) % 8 < 4 THEN EdgeIdx(n, (((k - 1) % 8) + ((k - 1) \div 8)) % 4)
+                       IF ~CI8InCrop(w, h, k - 1) THEN CI8Pad(w, h, n, k)
+                       ELSE IF (k - 1) % 8 < 4 THEN EdgeIdx(n, (((k - 1) % 8) + ((k - 1) \div 8)) % 4)
                        ELSE PatByte(w + 3 * h, k) % n]
 EdgeSizes == { <<4, 4>>, <<5, 3>>, <<9, 5>> }
 CropIndices(w, h, b) == { b[CI8Index(w, x, y) + 1] : x \in 0..(w - 1), y \in 0..(h - 1) }
@@ -151,7 +158,9 @@ Emit ==
          IN PrintT("T " \o ToJson([kind |-> "tpl", w |-> w, h |-> h, npal |-> n, nrand |-> NRandPal, file |-> TplCanon(v),
                                   pal_at |-> TplPalExtents(v, TplCanonP)[1][1],
                                   img_at |-> TplExtents(v, TplCanonP)[1][1],
-                                  img_len |-> CI8PayloadSize(w, h)]))
+                                  img_len |-> CI8PayloadSize(w, h),
+                                  \* payload offsets inside the crop; the recorder fills the others adversarially
+                                  crop |-> [q \in 1..(w * h) |-> CI8Index(w, (q - 1) % w, (q - 1) \div w)]]))
     [] c[1] = "T-tple" ->
          \* templates with 1, 2, 255, 256 palette entries; edge = the recorder puts the index range ends in
          LET w == c[2]  h == c[3]  n == c[4]
@@ -159,7 +168,9 @@ Emit ==
          IN PrintT("T " \o ToJson([kind |-> "tpl", w |-> w, h |-> h, npal |-> n, nrand |-> NRandPal + 1, file |-> TplCanon(v),
                                   pal_at |-> TplPalExtents(v, TplCanonP)[1][1],
                                   img_at |-> TplExtents(v, TplCanonP)[1][1],
-                                  img_len |-> CI8PayloadSize(w, h)]))
+                                  img_len |-> CI8PayloadSize(w, h),
+                                  \* payload offsets inside the crop; the recorder fills the others adversarially
+                                  crop |-> [q \in 1..(w * h) |-> CI8Index(w, (q - 1) % w, (q - 1) \div w)]]))
     [] c[1] = "G-ci8e" ->
          LET w == c[2]  h == c[3]  n == c[4]
              b == CI8Edge(w, h, n)  pal == PalBytes(n, w * h + n)
